@@ -27,14 +27,15 @@ type c15Step struct {
 var c15Files = []string{"page.vuego", "comp.vuego", "layouts/main.vuego"}
 var c15Entries = []string{"template-render", "render-file", "vue-render", "vue-fragment"}
 
-func c15Content(file string, version int) string {
+// front-matter and body carry separate version numbers: an edit may change either part alone
+func c15Content(file string, fmv, version int) string {
 	switch file {
 	case "page.vuego":
-		return fmt.Sprintf("---\nlayout: main\ntitle: T%d\n---\n<h1>page v%d {{ title }}</h1><template include=\"comp.vuego\"></template>", version, version)
+		return fmt.Sprintf("---\nlayout: main\ntitle: T%d\n---\n<h1>page v%d {{ title }}</h1><template include=\"comp.vuego\"></template>", fmv, version)
 	case "comp.vuego":
-		return fmt.Sprintf("---\ncv: C%d\n---\n<i>comp v%d {{ cv }}</i>", version, version)
+		return fmt.Sprintf("---\ncv: C%d\n---\n<i>comp v%d {{ cv }}</i>", fmv, version)
 	default:
-		return fmt.Sprintf("<main data-l=\"v%d\"><div v-html=\"content\"></div></main>", version)
+		return fmt.Sprintf("---\nlv: L%d\n---\n<main data-l=\"v%d\" :data-f=\"lv\"><div v-html=\"content\"></div></main>", fmv, version)
 	}
 }
 
@@ -69,12 +70,14 @@ func c15Run(steps []c15Step) *Case {
 	mfs := fstest.MapFS{}
 	now := time.Unix(1700000000, 0)
 	version := map[string]int{}
+	fmVersion := map[string]int{}
 	mt := map[string]time.Time{}
 	hi, lo := now, now
 	for _, f := range c15Files {
 		version[f] = 1
+		fmVersion[f] = 1
 		mt[f] = now
-		mfs[f] = &fstest.MapFile{Data: []byte(c15Content(f, 1)), ModTime: now}
+		mfs[f] = &fstest.MapFile{Data: []byte(c15Content(f, 1, 1)), ModTime: now}
 	}
 	long := vuego.NewFS(mfs)
 	var obs []any
@@ -83,8 +86,13 @@ func c15Run(steps []c15Step) *Case {
 		_ = i
 		key.WriteString(s.Op + ":" + s.File + s.Entry + s.Mtime + ";")
 		switch s.Op {
-		case "edit", "invalid":
-			version[s.File]++
+		case "edit", "invalid", "edit-fm", "edit-body":
+			if s.Op != "edit-fm" {
+				version[s.File]++
+			}
+			if s.Op != "edit-body" {
+				fmVersion[s.File]++
+			}
 			// every content change gets a modification time never used before (equal-mtime edits are outside the freshness claim)
 			switch s.Mtime {
 			case "back":
@@ -94,7 +102,7 @@ func c15Run(steps []c15Step) *Case {
 				hi = hi.Add(5 * time.Second)
 				mt[s.File] = hi
 			}
-			content := c15Content(s.File, version[s.File])
+			content := c15Content(s.File, fmVersion[s.File], version[s.File])
 			if s.Op == "invalid" {
 				content = "---\n: : bad: [yaml\n---\n<p>broken</p>"
 			}
@@ -199,10 +207,11 @@ func runC15(r *Run, replay *Case) {
 		}
 		c15Solo(r, n)
 	}()
-	r.Res.Rule = "histories over {edit, make invalid, delete, recreate(edit after delete), touch, render via 4 entry points} x {page, component, layout} x mtime {advance, back}; " +
+	r.Res.Rule = "histories over {edit (whole file / front-matter only / body only), make invalid, delete, recreate(edit after delete), touch, render via 4 entry points} x {page, component, layout} x mtime {advance, back}; " +
 		"exhaustive for short histories (every single mutation between two renders via every pair of entry points), random up to 10 steps; non-trivial = contains a mutation between two renders"
 	var muts []c15Step
 	for _, f := range c15Files {
+		muts = append(muts, c15Step{Op: "edit-fm", File: f, Mtime: "advance"}, c15Step{Op: "edit-body", File: f, Mtime: "advance"}, c15Step{Op: "edit-fm", File: f, Mtime: "back"})
 		muts = append(muts, c15Step{Op: "edit", File: f, Mtime: "advance"}, c15Step{Op: "edit", File: f, Mtime: "back"}, c15Step{Op: "invalid", File: f, Mtime: "advance"}, c15Step{Op: "delete", File: f}, c15Step{Op: "touch", File: f})
 	}
 	for _, e1 := range c15Entries {
